@@ -23,10 +23,11 @@ type SpecEnv struct {
 	names map[string]SVal
 	depth int
 	allowUndefined bool
+	noUnfold bool
 }
 
 func (e *SpecEnv) with(names map[string]SVal) *SpecEnv {
-	n := &SpecEnv{u: e.u, st: e.st, old: e.old, names: map[string]SVal{}, depth: e.depth + 1, allowUndefined: e.allowUndefined}
+	n := &SpecEnv{u: e.u, st: e.st, old: e.old, names: map[string]SVal{}, depth: e.depth + 1, allowUndefined: e.allowUndefined, noUnfold: e.noUnfold}
 	for k, v := range e.names {
 		n.names[k] = v
 	}
@@ -104,6 +105,17 @@ func (e *SpecEnv) eval(x SExpr) (SVal, error) {
 		if c, ok := u.eng.specs.Consts[n.Name]; ok {
 			return SVal{V: Scalar{BigLit(c)}}, nil
 		}
+		// package-level variable or constant of the unit's package
+		if u.fn.Pkg != nil {
+			switch m := u.fn.Pkg.Members[n.Name].(type) {
+			case *ssa.Global:
+				if pv, ok := u.globalPtr(m).(PtrV); ok {
+					return SVal{V: u.loadNoAssume(e.st, pv), T: m.Type().(*types.Pointer).Elem()}, nil
+				}
+			case *ssa.NamedConst:
+				return SVal{V: u.constValue(m.Value), T: m.Type()}, nil
+			}
+		}
 		return SVal{}, fmt.Errorf("unknown name %q", n.Name)
 	case SSel:
 		// package-qualified constant: pkg.Name
@@ -148,8 +160,8 @@ func (e *SpecEnv) eval(x SExpr) (SVal, error) {
 			if err != nil {
 				return SVal{}, err
 			}
-			u.eng.qctr++
-			bn := fmt.Sprintf("%s_q%d", v, u.eng.qctr)
+			u.qctr++
+			bn := fmt.Sprintf("%s_q%d", v, u.qctr)
 			binders = append(binders, fmt.Sprintf("(%s %s)", bn, s))
 			names[v] = SVal{V: Scalar{Term{bn, s}}}
 		}
@@ -235,7 +247,7 @@ func (e *SpecEnv) index(xv, iv SVal) (SVal, error) {
 			case *types.Array:
 				return SVal{V: Scalar{Select(x.T, it)}, T: t.Elem()}, nil
 			case *types.Map:
-				return SVal{V: u.mapLoadValNoAssume(e.st, t, x.T, it), T: t.Elem()}, nil
+				return SVal{V: u.mapLoadValNoAssume(e.st, t, x.T, u.mapKeyTerm(t, iv.V)), T: t.Elem()}, nil
 			case *types.Basic:
 				return SVal{V: Scalar{app(SInt, "str_at", x.T, it)}}, nil
 			}
@@ -601,6 +613,70 @@ func (e *SpecEnv) callSpec(n SCall) (SVal, error) {
 			}
 		}
 		return SVal{}, fmt.Errorf("sentinel %s not found", tn.V)
+	case "mapdom": // mapdom(m): the key set of a map as an SMT set
+		v, err := e.eval(n.Args[0])
+		if err != nil {
+			return SVal{}, err
+		}
+		mt, ok := v.T.Underlying().(*types.Map)
+		if !ok {
+			return SVal{}, fmt.Errorf("mapdom of non-map")
+		}
+		return SVal{V: Scalar{u.mapDom(e.st, mt, v.V.(Scalar).T)}}, nil
+	case "mapvals": // mapvals(m): the value array of a map with scalar values
+		v, err := e.eval(n.Args[0])
+		if err != nil {
+			return SVal{}, err
+		}
+		mt, ok := v.T.Underlying().(*types.Map)
+		if !ok {
+			return SVal{}, fmt.Errorf("mapvals of non-map")
+		}
+		lfs := leaves(mt.Elem())
+		if len(lfs) != 1 {
+			return SVal{}, fmt.Errorf("mapvals needs a scalar value type")
+		}
+		comp := u.m.comp(e.st, u.mapValName(mt, lfs[0].Path), ArrSort(SInt, ArrSort(mapKeySort(mt), lfs[0].Sort)))
+		return SVal{V: Scalar{Select(comp, v.V.(Scalar).T)}}, nil
+	case "elemsof": // elemsof(s): the backing array of a slice of scalars; element i is elemsof(s)[offof(s)+i]
+		v, err := e.eval(n.Args[0])
+		if err != nil {
+			return SVal{}, err
+		}
+		sv, ok := v.V.(SliceV)
+		if !ok {
+			return SVal{}, fmt.Errorf("elemsof of %T", v.V)
+		}
+		elem := v.T.Underlying().(*types.Slice).Elem()
+		lfs := leaves(elem)
+		if len(lfs) != 1 {
+			return SVal{}, fmt.Errorf("elemsof needs scalar elements")
+		}
+		p := PtrV{Base: sv.Arr, Obj: elem, Arr: true}
+		name, _ := compName(p, lfs[0].Path)
+		comp := u.m.comp(e.st, name, u.m.compSort(true, lfs[0].Sort))
+		return SVal{V: Scalar{Select(comp, sv.Arr)}}, nil
+	case "offof":
+		v, err := e.eval(n.Args[0])
+		if err != nil {
+			return SVal{}, err
+		}
+		sv, ok := v.V.(SliceV)
+		if !ok {
+			return SVal{}, fmt.Errorf("offof of %T", v.V)
+		}
+		return SVal{V: Scalar{sv.Off}}, nil
+	case "keyof": // keyof(a): the integer code of a fixed-size array value used as a map key
+		t, err := e.evalTerm(n.Args[0])
+		if err != nil {
+			return SVal{}, err
+		}
+		if !strings.HasPrefix(string(t.Sort), "(Array ") {
+			return SVal{V: Scalar{t}}, nil
+		}
+		return SVal{V: Scalar{u.arrKey(t)}}, nil
+	case "allocmark": // allocmark(): the allocation counter of the current state (identifies a call)
+		return SVal{V: Scalar{e.st.alloc}}, nil
 	case "deref": // deref(p): the value a pointer designates
 		v, err := e.eval(n.Args[0])
 		if err != nil {
@@ -671,14 +747,10 @@ func (e *SpecEnv) callSpec(n SCall) (SVal, error) {
 			return SVal{}, err
 		}
 		var key string
-		for k := range e.st.ghost {
-			if strings.HasPrefix(k, "iter|") {
-				if key != "" && key != k {
-					// several iterators: pick by optional second argument
-				}
-				if key == "" || k > key {
-					key = k
-				}
+		for i := len(u.iterOrder) - 1; i >= 0; i-- { // the most recently started iteration
+			if _, ok := e.st.ghost[u.iterOrder[i]]; ok {
+				key = u.iterOrder[i]
+				break
 			}
 		}
 		if len(n.Args) > 1 {
@@ -693,6 +765,65 @@ func (e *SpecEnv) callSpec(n SCall) (SVal, error) {
 			return SVal{}, fmt.Errorf("no active map iteration for visited()")
 		}
 		return SVal{V: Scalar{Select(e.st.ghost[key], kv)}}, nil
+	}
+	// recursive specification functions
+	if rf, ok := u.eng.specs.RecFns[n.Fn]; ok {
+		if len(rf.Params) != len(n.Args) {
+			return SVal{}, fmt.Errorf("function %s: %d arguments expected", n.Fn, len(rf.Params))
+		}
+		if err := u.declareRecFn(rf); err != nil {
+			return SVal{}, err
+		}
+		var args []Term
+		for i, a := range n.Args {
+			t, err := e.evalTerm(a)
+			if err != nil {
+				return SVal{}, err
+			}
+			if t.Sort != rf.Sorts[i] {
+				return SVal{}, fmt.Errorf("function %s: argument %d has sort %s, want %s", n.Fn, i, t.Sort, rf.Sorts[i])
+			}
+			args = append(args, t)
+		}
+		appT := app(rf.Ret, rf.Name, args...)
+		// hint: state the one-step unfolding of every ground application (definitionally true); solvers
+		// otherwise often fail to unfold a recursive function at a symbolic argument in a large context
+		ground := true
+		for _, a := range args {
+			if strings.Contains(a.S, "_q") || strings.Contains(a.S, "rp_") {
+				ground = false
+			}
+		}
+		if ground && !e.noUnfold && u.discov == 0 && !u.unfolded[appT.S] {
+			u.unfolded[appT.S] = true
+			names := map[string]SVal{}
+			for i, p := range rf.Params {
+				names[p] = SVal{V: Scalar{args[i]}}
+			}
+			inner := &SpecEnv{u: u, st: e.st, old: e.old, names: names, noUnfold: true}
+			if body, err := inner.evalTerm(rf.Body); err == nil {
+				u.c.Assume(Eq(appT, body))
+			}
+		}
+		return SVal{V: Scalar{appT}}, nil
+	}
+	// functions of the SMT preamble
+	if bf, ok := preambleFns[n.Fn]; ok {
+		if len(bf.Args) != len(n.Args) {
+			return SVal{}, fmt.Errorf("function %s: %d arguments expected", n.Fn, len(bf.Args))
+		}
+		var args []Term
+		for i, a := range n.Args {
+			t, err := e.evalTerm(a)
+			if err != nil {
+				return SVal{}, err
+			}
+			if t.Sort != bf.Args[i] {
+				return SVal{}, fmt.Errorf("function %s: argument %d has sort %s, want %s", n.Fn, i, t.Sort, bf.Args[i])
+			}
+			args = append(args, t)
+		}
+		return SVal{V: Scalar{app(bf.Ret, bf.Name, args...)}}, nil
 	}
 	// ghost heap functions
 	if hf, ok := u.eng.specs.HFns[n.Fn]; ok {
@@ -853,3 +984,37 @@ func (u *Unit) bindParams(env *SpecEnv, sp *FuncSpec, fn *ssa.Function, sig *typ
 }
 
 var _ = token.NoPos
+
+var preambleFns = map[string]*UFn{
+	"str_bytes": {Name: "str_bytes", Args: []Sort{SStr}, Ret: SByt},
+	"bytes_str": {Name: "bytes_str", Args: []Sort{SByt}, Ret: SStr},
+	"bytes_len": {Name: "bytes_len", Args: []Sort{SByt}, Ret: SInt},
+	"bytes_at":  {Name: "bytes_at", Args: []Sort{SByt, SInt}, Ret: SInt},
+	"strlen":    {Name: "strlen", Args: []Sort{SStr}, Ret: SInt},
+	"str_at":    {Name: "str_at", Args: []Sort{SStr, SInt}, Ret: SInt},
+}
+
+// declareRecFn emits the define-fun-rec of a recursive specification function (once per unit).
+func (u *Unit) declareRecFn(rf *RecFn) error {
+	if u.c.funs["rec:"+rf.Name] {
+		return nil
+	}
+	u.c.funs["rec:"+rf.Name] = true
+	names := map[string]SVal{}
+	var params []string
+	for i, p := range rf.Params {
+		pn := "rp_" + rf.Name + "_" + p
+		params = append(params, fmt.Sprintf("(%s %s)", pn, rf.Sorts[i]))
+		names[p] = SVal{V: Scalar{Term{pn, rf.Sorts[i]}}}
+	}
+	env := &SpecEnv{u: u, st: u.entrySt, old: u.entrySt, names: names}
+	body, err := env.evalTerm(rf.Body)
+	if err != nil {
+		return fmt.Errorf("recfn %s: %v", rf.Name, err)
+	}
+	if body.Sort != rf.Ret {
+		return fmt.Errorf("recfn %s: body has sort %s, want %s", rf.Name, body.Sort, rf.Ret)
+	}
+	u.c.Raw(fmt.Sprintf("(define-fun-rec %s (%s) %s %s)", rf.Name, strings.Join(params, " "), rf.Ret, body.S))
+	return nil
+}
